@@ -1,7 +1,7 @@
 (* C11 - A1 and row/column addressing reach the same cell in every call; bounds hold.
    Property theorems only; each is closed by [exact] of a lemma from Proofs/. *)
 From Coq Require Import ZArith NArith List Bool.
-From NP Require Import Gen.GenConsts Model.PyBase Model.A1 Model.Grid Proofs.GridP.
+From NP Require Import Gen.GenConsts Gen.GenC11 Model.PyBase Model.A1 Model.Grid Proofs.GridP Proofs.C11Gen.
 Import ListNotations.
 Open Scope Z_scope.
 
@@ -83,3 +83,32 @@ Example zero_bounds_are_bounds :
   iter_rows (new_table 3 3) None (Some 3) None None = Err IndexError /\
   write (new_table 3 3) (-1) 0 5 = Err IndexError.
 Proof. vm_compute. repeat split. Qed.
+
+(* ---- tie to the source, regenerated on every run (tools/gen_c11.py -> Gen/GenC11.v): Table._validate_cell_coords,
+   translated guard by guard and loop by loop from its AST, IS the model's validation for every table and all integers:
+   same rejections, and on acceptance growth by exactly the iteration counts of the two source loops, rows first ---- *)
+Theorem gen_validate_cell_coords : forall t r c,
+  validate t r c =
+    if validate_rejects r c then Err IndexError
+    else Ok (grow_cols (range_len (grow1_range (nrows t) (ncols t) r c))
+              (grow_rows (range_len (grow0_range (nrows t) (ncols t) r c)) t)).
+Proof. exact gen_validate_is_model. Qed.
+Print Assumptions gen_validate_cell_coords.
+
+(* the translated guards reject exactly the positions write_bounds speaks of *)
+Theorem gen_validate_rejects : forall r c,
+  validate_rejects r c = true <-> (r < 0 \/ c < 0 \/ MAX_ROW_COUNT <= r \/ MAX_COL_COUNT <= c).
+Proof. exact gen_validate_rejects_spec. Qed.
+Print Assumptions gen_validate_rejects.
+
+(* every guard raises IndexError, growth calls add_row then add_column, and every position-taking method of Table
+   (write, set_cell_style, set_cell_border, set_cell_formatting - every *args method but cell()) begins with the
+   validation call: the bounds theorems above speak for all of them *)
+Theorem gen_position_methods :
+  forallb (fun e => str_eqb e (exn_name IndexError)) guard_exceptions = true /\ guard_exceptions <> [] /\
+  grow_calls = [s_add_row; s_add_column] /\
+  forallb snd position_methods = true /\
+  forallb (fun n => existsb (fun m => str_eqb (fst m) n) position_methods)
+          [s_write; s_set_cell_style; s_set_cell_border; s_set_cell_formatting] = true.
+Proof. exact gen_validate_shape. Qed.
+Print Assumptions gen_position_methods.
